@@ -389,7 +389,7 @@ fn make_vector<R: RealNumberInternalTrait>(
     }
     let fill = iter.next().unwrap();
     #[cfg(ruschm_verif)]
-    crate::verif_hooks::alloc(k as usize)?;
+    crate::verif_hooks::alloc(k as usize, crate::verif_hooks::weight(&fill))?;
     Ok(Value::Vector(ValueReference::new_mutable(vec![
         fill;
         k as usize
